@@ -168,14 +168,13 @@ def make_dataset(spec, df):
     return Dataset(Data.from_dataframe(df))
 
 
-def missing_class(df, feats):
-    """Which kind of incompleteness the table has once visits without any observation are dropped."""
-    v = df[feats].notna()
-    kept = v.any(axis=1)
-    if (~v[kept]).any().any():
+def missing_class(dataset):
+    """Which kind of incompleteness the tensors hold (a visit slot is real when at least one feature is observed there)."""
+    m = dataset.mask.to(torch.bool).numpy()  # (individuals, visit slots, features)
+    real = m.any(axis=-1)
+    if (~m[real]).any():
         return "entry missing at a real visit"
-    counts = df[kept].groupby("ID").size()
-    if counts.nunique() > 1:
+    if (~real).any():
         return "padded visits only"
     return "complete rectangular data"
 
@@ -606,7 +605,7 @@ def run_history(ctx, layout_name, missing, label, n_steps, acc=None, sample=Fals
     if ctx.get("ds_key") != key:
         df, feats = make_frame(info["spec"], layout, miss_entries)
         ctx["ds"] = make_dataset(info["spec"], df)
-        ctx["mclass"] = missing_class(df, feats)
+        ctx["mclass"] = missing_class(ctx["ds"])
         ctx["n_obs_frame"] = int(df[feats].notna().sum().sum())
         ctx["ds_key"] = key
     ds, mclass = ctx["ds"], ctx["mclass"]
@@ -693,7 +692,7 @@ def run_fit(name, layout_name, missing, n_iter, seed, acc=None):
     ent = entries(layout, info["spec"]["dim"], 2)
     df, feats = make_frame(info["spec"], layout, [ent[q] for q in missing])
     ds = make_dataset(info["spec"], df)
-    mclass = missing_class(df, feats)
+    mclass = missing_class(ds)
     n_burn = n_iter // 2
     algo = make_algo(n_iter=n_iter, n_burn=n_burn, power=0.8, seed=seed)
     # individual latent values already present in the model state are kept by the fit initialisation ("if not already set"):
